@@ -106,6 +106,14 @@ CHECKS["C03"] = dict(
     ref="DESIGN.md 5.C03",
 )
 
+CHECKS["C16"] = dict(
+    engine="symx+z3",
+    technique="bounded symbolic execution (symx/z3) of the real extract / extract_outermost / origin tracking over solver-enumerated chains (C03 driver), item trees (C10 driver), threads, greenlets, frameless roots and running generator-likes",
+    text="For every frame of every chain of depth <= 2 (thorough 3) over all link kinds, of 11 item trees x 5 hook tables, of a parked thread and a suspended greenlet: a non-None origin is weak-referenceable and extract_outermost(origin).pyframe is that frame; frames found by looking inside a suspended generator-like have it as origin; extract_outermost(x) equals extract(x).frames[0] field by field or raises (re-raising the recorded error) iff there are no frames; also from 0..2 calls below a running generator / coroutine / async generator.",
+    note="LOW SOLVER LEVERAGE (finite scenario product certified complete by the solver). Trio/greenback item kinds are outside.",
+    ref="DESIGN.md 5.C16",
+)
+
 NOT_APPLICABLE = {
     "C06": "Quantifies over interpreter bookkeeping (reference counts, object lifetime, crashes) behind a ctypes boundary; no value a solver can range over, and any symbolic engine perturbs the very refcounts measured (DESIGN.md 5.C06).",
     "C07": "OS-thread interleavings against raw-memory reads; depends on when CPython releases the GIL, not on Python-level data; needs a runtime schedule controller, a different technique family (DESIGN.md 5.C07).",
